@@ -5,9 +5,10 @@
       within the vector; every import item is linked to its entry of [m_imports]; distinct import items carry
       distinct entries; every live entry is carried by an item; a space that was never flagged for recalculation is
       still imports-first with nothing deleted).  [wf_mk_base], [step_wf], [run_pref_wf].
-   2. [okD02 / okD06 / okD26]: the known classes as boolean predicates on the state, and their link to the
-      classifiers of CheckReidx.v.
-   3. [reachable_binding]: outside the three classes, in every reachable state, every live item's id is mapped to the
+   2. [okD02]: the known class D02 as a boolean predicate on the state, and its link to the classifier of
+      CheckReidx.v.  (D06 and D26 are repaired: recalculate_ids drops every deleted item, so the former
+      premises okD06 / okD26 are gone.)
+   3. [reachable_binding]: outside D02, in every reachable state, every live item's id is mapped to the
       index at which Wasm's index rule - computed from what the model itself emits - finds that very item.
       The hypothesis [noD02] of ReidxBind.v is *derived* from okD02 + the linkage invariant.
    4. Corollaries in the vocabulary of CheckReidx.v ([designates] on the result of [encode]), loud failure for
@@ -640,7 +641,7 @@ Proof.
 Qed.
 
 (* ------------------------------------------------------------------------------------------ *)
-(* 2. the known classes D02 / D06 / D26 as predicates on the state *)
+(* 2. the known class D02 as a predicate on the state *)
 
 Definition live_ks (l : list item) : list N :=
   flat_map (fun i => match it_imp i with Some k => if it_del i then [] else [k] | None => [] end) l.
@@ -648,34 +649,17 @@ Definition ispace_m (m : mst) (x : sp) : list item * list (N * N) :=
   match index_space (get_sp m x) with Ok r => r | Panic _ => ([], []) end.
 (* not D02: the import entries of the live import items of the index space come in increasing order *)
 Definition okD02 (x : sp) (m : mst) : bool := increasing (live_ks (fst (ispace_m m x))).
-(* not D06: no deleted import item in the later region *)
-Definition okD06 (x : sp) (m : mst) : bool :=
-  negb (existsb (fun i => is_import i && it_del i) (skipn (origN (get_sp m x)) (s_items (get_sp m x)))).
-(* not D26: no deleted local item in the region of the original imports *)
-Definition okD26 (x : sp) (m : mst) : bool :=
-  negb (existsb (fun i => is_local i && it_del i) (firstn (origN (get_sp m x)) (s_items (get_sp m x)))).
 
-(* link with the classifiers of CheckReidx.v, which are phrased on a case *)
+(* link with the classifier of CheckReidx.v, which is phrased on a case *)
 Theorem known_D02_link (c : rcase) :
   known_D02 c = negb (okD02 SF (final_model c) && okD02 SG (final_model c) && okD02 SM (final_model c)).
 Proof.
   unfold known_D02, okD02, ispace_m, ispace, live_ks. cbn [existsb].
   repeat match goal with |- context [increasing ?t] => destruct (increasing t) end; reflexivity.
 Qed.
-Theorem known_D06_link (c : rcase) :
-  known_D06 c = negb (okD06 SF (final_model c) && okD06 SG (final_model c) && okD06 SM (final_model c)).
-Proof.
-  unfold known_D06, okD06, origN. cbn [existsb].
-  repeat match goal with |- context [existsb ?f ?t] => destruct (existsb f t) end; reflexivity.
-Qed.
 Corollary not_known_D02 c : known_D02 c = false -> forall x, okD02 x (final_model c) = true.
 Proof.
   rewrite known_D02_link. intros H x. apply negb_false_iff in H. apply andb_prop in H as [H H3]. apply andb_prop in H as [H1 H2].
-  destruct x; assumption.
-Qed.
-Corollary not_known_D06 c : known_D06 c = false -> forall x, okD06 x (final_model c) = true.
-Proof.
-  rewrite known_D06_link. intros H x. apply negb_false_iff in H. apply andb_prop in H as [H H3]. apply andb_prop in H as [H1 H2].
   destruct x; assumption.
 Qed.
 
@@ -788,16 +772,16 @@ Proof.
   intros Hr. destruct (wf_prist _ _ _ W Hr) as [Ha Hall].
   assert (Ho : orig = N.to_nat (s_num x)) by (unfold origN; rewrite Ha; lia).
   unfold spec. rewrite Ho.
-  rewrite (filter_all keepA), (filter_none is_import), (filter_all keepC), (filter_none is_local).
+  rewrite (filter_all keepA), (filter_none keepA), (filter_all keepC), (filter_none keepC).
   - cbn [app]. rewrite app_nil_r. apply firstn_skipn.
   - intros i Hi. apply In_firstn_nth in Hi as [p [Hp Hn]]. destruct (Hall p i Hn) as [_ Hi].
-    apply import_not_local. apply Hi. exact Hp.
+    unfold keepC. rewrite (import_not_local _ (proj2 Hi Hp)). reflexivity.
   - intros i Hi. apply In_skipn_nth in Hi as [p [Hp Hn]]. destruct (Hall p i Hn) as [Hd Hi].
     assert (Hnot : is_import i = false)
       by (destruct (is_import i); [exfalso; pose proof (proj1 Hi eq_refl); lia|reflexivity]).
     unfold keepC. rewrite Hd. unfold is_import in Hnot. destruct (is_local i); [reflexivity|discriminate].
   - intros i Hi. apply In_skipn_nth in Hi as [p [Hp Hn]]. destruct (Hall p i Hn) as [_ Hi].
-    destruct (is_import i); [|reflexivity]. exfalso. pose proof (proj1 Hi eq_refl). lia.
+    unfold keepA. destruct (is_import i); [|reflexivity]. exfalso. pose proof (proj1 Hi eq_refl). lia.
   - intros i Hi. apply In_firstn_nth in Hi as [p [Hp Hn]]. destruct (Hall p i Hn) as [Hd Hi].
     unfold keepA. rewrite Hd. rewrite (proj2 Hi Hp). reflexivity.
 Qed.
@@ -854,14 +838,6 @@ Proof.
     [eapply In_firstn_In|eapply In_skipn_In|eapply In_skipn_In|eapply In_firstn_In]; exact H.
 Qed.
 
-Hypothesis ok06 : negb (existsb (fun i => is_import i && it_del i) (skipn orig items)) = true.
-Hypothesis ok26 : negb (existsb (fun i => is_local i && it_del i) (firstn orig items)) = true.
-
-Lemma noD06_of_ok : forall i, In i (skipn orig items) -> is_import i = true -> it_del i = false.
-Proof. intros i Hi Himp. pose proof (negb_existsb_false _ _ ok06 i Hi) as H. cbv beta in H. rewrite Himp in H. exact H. Qed.
-Lemma noD26_of_ok : forall i, In i (firstn orig items) -> is_local i = true -> it_del i = false.
-Proof. intros i Hi Hloc. pose proof (negb_existsb_false _ _ ok26 i Hi) as H. cbv beta in H. rewrite Hloc in H. exact H. Qed.
-
 (* the fingerprints of the live import items of a sub-list are the ones found at their entries *)
 Lemma live_ks_fps : forall L, (forall it, In it L -> In it items) ->
   map (fpat imps) (live_ks L) = map it_fp (filter (fun i => is_import i && negb (it_del i)) L).
@@ -908,8 +884,8 @@ Proof.
   rewrite live_ks_fps by exact spec_incl. rewrite spec_split, filter_app.
   rewrite (filter_all _ (Ipart orig items)), (filter_none _ (Lpart orig items)).
   - rewrite app_nil_r. reflexivity.
-  - intros i Hi. destruct (Lpart_locals _ _ noD26_of_ok i Hi) as [Hl _]. rewrite (local_not_import _ Hl). reflexivity.
-  - intros i Hi. destruct (Ipart_imports _ _ noD06_of_ok i Hi) as [Hl Hd]. rewrite Hl, Hd. reflexivity.
+  - intros i Hi. destruct (Lpart_locals _ _ i Hi) as [Hl _]. rewrite (local_not_import _ Hl). reflexivity.
+  - intros i Hi. destruct (Ipart_imports _ _ i Hi) as [Hl Hd]. rewrite Hl, Hd. reflexivity.
 Qed.
 
 (* the binding theorem for a well-formed space: no hypothesis on the import list is left *)
@@ -919,7 +895,7 @@ Theorem space_binding l mp : index_space x = Ok (l, mp) ->
             nth_error (map i_fp (filter (kindlive code) imps) ++ emitted_locals l true) (N.to_nat q) = Some (it_fp it).
 Proof.
   intros H it Hin Hd. destruct (index_space_wf _ _ H) as [-> ->].
-  exact (live_items_bound orig items (wf_ids_nodup _ _ _ W) noD06_of_ok noD26_of_ok _ import_order_agrees it Hin Hd).
+  exact (live_items_bound orig items (wf_ids_nodup _ _ _ W) _ import_order_agrees it Hin Hd).
 Qed.
 End OneSpace.
 
@@ -937,24 +913,23 @@ Definition space_of_model (m : mst) (l : list item) (x : sp) : list N :=
 Lemma ok02_unfold m x l mp : index_space (get_sp m x) = Ok (l, mp) -> okD02 x m = increasing (live_ks l).
 Proof. intros H. unfold okD02, ispace_m. rewrite H. reflexivity. Qed.
 
-Theorem wf_binding m x : wf m ->
-  okD02 x m = true -> okD06 x m = true -> okD26 x m = true ->
+Theorem wf_binding m x : wf m -> okD02 x m = true ->
   forall l mp, index_space (get_sp m x) = Ok (l, mp) ->
   forall it, In it (s_items (get_sp m x)) -> it_del it = false ->
   exists q, lookup mp (it_id it) = Some q /\ nthN (space_of_model m l x) q = Some (it_fp it).
 Proof.
-  intros W H2 H6 H26 l mp H it Hin Hd.
+  intros W H2 l mp H it Hin Hd.
   unfold space_of_model, model_imports, nthN. rewrite model_imports_kind.
   rewrite (ok02_unfold _ _ _ _ H) in H2.
   destruct (index_space_wf _ _ _ (W x) _ _ H) as [El _]. rewrite El in H2.
-  exact (space_binding _ _ _ (W x) H6 H26 H2 l mp H it Hin Hd).
+  exact (space_binding _ _ _ (W x) H2 l mp H it Hin Hd).
 Qed.
 
 (* MAIN THEOREM: in every state reached by an edit history from a well-formed base (in particular from every
-   base the checker builds), outside D02 / D06 / D26 every live item's id is mapped to the index at which
-   Wasm's rule finds that very item in the model's own output. *)
+   base the checker builds), outside D02 every live item's id is mapped to the index at which Wasm's rule finds
+   that very item in the model's own output. *)
 Theorem reachable_binding : forall base h m rets, wf base -> run_pref base h [] = (m, rets, false) ->
-  forall x, okD02 x m = true -> okD06 x m = true -> okD26 x m = true ->
+  forall x, okD02 x m = true ->
   forall l mp, index_space (get_sp m x) = Ok (l, mp) ->
   forall it, In it (s_items (get_sp m x)) -> it_del it = false ->
   exists q, lookup mp (it_id it) = Some q /\ nthN (space_of_model m l x) q = Some (it_fp it).
@@ -962,8 +937,7 @@ Proof.
   intros base h m rets Wb Hrun x. exact (wf_binding m x (run_pref_wf _ _ _ _ _ _ Wb Hrun)).
 Qed.
 
-Corollary case_binding (c : rcase) : forall x,
-  okD02 x (final_model c) = true -> okD06 x (final_model c) = true -> okD26 x (final_model c) = true ->
+Corollary case_binding (c : rcase) : forall x, okD02 x (final_model c) = true ->
   forall l mp, index_space (get_sp (final_model c) x) = Ok (l, mp) ->
   forall it, In it (s_items (get_sp (final_model c) x)) -> it_del it = false ->
   exists q, lookup mp (it_id it) = Some q /\ nthN (space_of_model (final_model c) l x) q = Some (it_fp it).
@@ -973,32 +947,32 @@ Proof. intros x. exact (wf_binding _ x (wf_final_model c)). Qed.
 Theorem wf_index_space_total m x : wf m -> exists l mp, index_space (get_sp m x) = Ok (l, mp).
 Proof. intros W. exact (index_space_total _ _ _ (W x)). Qed.
 
-(* nothing deleted is left in the index space of a well-formed state outside D06 / D26 *)
-Theorem wf_no_deleted_left m x : wf m -> okD06 x m = true -> okD26 x m = true ->
+(* nothing deleted is left in the index space of a well-formed state (unconditionally since the repair of D06 / D26) *)
+Theorem wf_no_deleted_left m x : wf m ->
   forall l mp, index_space (get_sp m x) = Ok (l, mp) -> forall it, In it l -> it_del it = false.
 Proof.
-  intros W H6 H26 l mp H it Hin. destruct (index_space_wf _ _ _ (W x) _ _ H) as [-> _].
-  exact (no_deleted_left _ _ (noD06_of_ok _ H6) (noD26_of_ok _ H26) it Hin).
+  intros W l mp H it Hin. destruct (index_space_wf _ _ _ (W x) _ _ H) as [-> _].
+  exact (spec_no_deleted _ _ it Hin).
 Qed.
 
 (* loud failure: an id all of whose carriers are deleted (or that no item carries) has no entry in the id map, so
    every re-indexed reference to it makes encode panic ("Deleted function!") *)
-Theorem wf_deleted_unmapped m x : wf m -> okD06 x m = true -> okD26 x m = true ->
+Theorem wf_deleted_unmapped m x : wf m ->
   forall l mp, index_space (get_sp m x) = Ok (l, mp) ->
   forall id, (forall it, In it (s_items (get_sp m x)) -> it_id it = id -> it_del it = true) ->
   lookup mp id = None.
 Proof.
-  intros W H6 H26 l mp H id Hid. pose proof (wf_no_deleted_left m x W H6 H26 l mp H) as Hnd.
+  intros W l mp H id Hid. pose proof (wf_no_deleted_left m x W l mp H) as Hnd.
   destruct (index_space_wf _ _ _ (W x) _ _ H) as [El ->]. apply mapping_absent.
   intros Hin. apply in_map_iff in Hin as [it [Eid Hit]].
   pose proof (Hnd it Hit) as Hlive. rewrite El in Hit. apply spec_incl in Hit.
   rewrite (Hid it Hit Eid) in Hlive. discriminate.
 Qed.
-Corollary wf_deleted_item_unmapped m x : wf m -> okD06 x m = true -> okD26 x m = true ->
+Corollary wf_deleted_item_unmapped m x : wf m ->
   forall l mp, index_space (get_sp m x) = Ok (l, mp) ->
   forall it, In it (s_items (get_sp m x)) -> it_del it = true -> lookup mp (it_id it) = None.
 Proof.
-  intros W H6 H26 l mp H it Hin Hd. apply (wf_deleted_unmapped m x W H6 H26 l mp H).
+  intros W l mp H it Hin Hd. apply (wf_deleted_unmapped m x W l mp H).
   intros it' Hin' E.
   destruct (In_nth_error _ _ Hin) as [p Hp]. destruct (In_nth_error _ _ Hin') as [p' Hp'].
   pose proof (wf_ids _ _ _ (W x) p it Hp) as E1. pose proof (wf_ids _ _ _ (W x) p' it' Hp') as E2.
@@ -1029,13 +1003,13 @@ Proof.
 Qed.
 
 Theorem wf_encode_designates m dead sites e : wf m -> encode m dead sites = Ok e ->
-  forall x, okD02 x m = true -> okD06 x m = true -> okD26 x m = true ->
+  forall x, okD02 x m = true ->
   forall l mp, index_space (get_sp m x) = Ok (l, mp) ->
   forall it, In it (s_items (get_sp m x)) -> it_del it = false ->
   exists q, lookup mp (it_id it) = Some q /\ designates e x q = Some (it_fp it).
 Proof.
-  intros W He x H2 H6 H26 l mp H it Hin Hd.
-  destruct (wf_binding m x W H2 H6 H26 l mp H it Hin Hd) as [q [Hq Hn]].
+  intros W He x H2 l mp H it Hin Hd.
+  destruct (wf_binding m x W H2 l mp H it Hin Hd) as [q [Hq Hn]].
   exists q. split; [exact Hq|].
   destruct (encode_ok _ _ _ _ He) as [lf [mf [lg [mg [lm [mm [Hf [Hg [Hm [Ei [Ef [Eg Em]]]]]]]]]]]].
   unfold designates, space_of. rewrite Ei. unfold space_of_model in Hn.
@@ -1043,13 +1017,13 @@ Proof.
   - rewrite Ef. rewrite H in Hf. inversion Hf; subst. exact Hn.
   - rewrite Eg. rewrite H in Hg. inversion Hg; subst. exact Hn.
   - rewrite Em. rewrite H in Hm. inversion Hm; subst.
-    rewrite emitted_locals_nocheck; [exact Hn|]. exact (wf_no_deleted_left m SM W H6 H26 _ _ H).
+    rewrite emitted_locals_nocheck; [exact Hn|]. exact (wf_no_deleted_left m SM W _ _ H).
 Qed.
 
 (* the same for every state reached by a history, and for the final state of every checker case *)
 Theorem encode_designates : forall base h m rets dead sites e,
   wf base -> run_pref base h [] = (m, rets, false) -> encode m dead sites = Ok e ->
-  forall x, okD02 x m = true -> okD06 x m = true -> okD26 x m = true ->
+  forall x, okD02 x m = true ->
   forall l mp, index_space (get_sp m x) = Ok (l, mp) ->
   forall it, In it (s_items (get_sp m x)) -> it_del it = false ->
   exists q, lookup mp (it_id it) = Some q /\ designates e x q = Some (it_fp it).
@@ -1059,231 +1033,57 @@ Qed.
 
 Corollary case_encode_designates (c : rcase) e :
   encode (final_model c) (dead_exports (h_ops c)) (sites c) = Ok e ->
-  forall x, okD02 x (final_model c) = true -> okD06 x (final_model c) = true -> okD26 x (final_model c) = true ->
+  forall x, okD02 x (final_model c) = true ->
   forall l mp, index_space (get_sp (final_model c) x) = Ok (l, mp) ->
   forall it, In it (s_items (get_sp (final_model c) x)) -> it_del it = false ->
   exists q, lookup mp (it_id it) = Some q /\ designates e x q = Some (it_fp it).
 Proof. exact (wf_encode_designates _ _ _ e (wf_final_model c)). Qed.
 
 (* ------------------------------------------------------------------------------------------ *)
-(* 2'. link of okD26 with CheckReidx.known_D26, which is phrased on the history ("a Delete SF after an
-   ImportToLocal"): what one edit does to the item vector of the space it touches *)
+(* C09: outside D02 the emitted index space IS the reorganised vector, position by position, and that vector holds
+   exactly the live items, each once *)
 
-Inductive effect (o : op) (s : sp) (x x' : space) : Prop :=
-| EApp a : s_items x' = s_items x ++ [a] -> origN x' = origN x -> effect o s x x'
-| EDel id : o = Delete s id -> s_items x' = upd (N.to_nat id) (set_del true) (s_items x) -> origN x' = origN x -> effect o s x x'
-| EL2I id fp k : o = LocalToImport id fp -> s = SF ->
-    s_items x' = upd (N.to_nat id) (fun _ => mkItem id (Some k) false fp) (s_items x) -> origN x' = origN x -> effect o s x x'
-| EI2L k fp : o = ImportToLocal k fp -> s = SF ->
-    s_items x' = upd (N.to_nat k) (fun _ => mkItem k None false fp) (s_items x) -> origN x' = origN x -> effect o s x x'.
-
-Lemma upd_upd {A} (f g : A -> A) : forall n l, upd n g (upd n f l) = upd n (fun a => g (f a)) l.
-Proof. induction n as [|n IH]; intros [|a l]; cbn; try reflexivity. f_equal. apply IH. Qed.
-
-Lemma origN_bump x nl r items : (s_added x <= s_num x)%N ->
-  origN (mkSpace items r (s_num x + 1) (s_added x + 1) nl) = origN x.
-Proof. intros H. unfold origN. cbn [s_num s_added]. lia. Qed.
-
-Lemma step_effect m o m' r : wf m -> mstep m o = Ok (m', r) ->
-  m' = m \/ exists s x' imps', m' = with_sp m s x' imps' /\ effect o s (get_sp m s) x'.
-Proof.
-  intros W H. destruct o as [s fp|s fp|s id|id fp|k fp|fp|s id|k|mem].
-  - right. destruct s; cbn [Reindex.step] in H.
-    + destruct (N.eqb _ _); [|discriminate]. injection H as Hm _. subst m'.
-      exists SF. eexists. exists (m_imports m). split; [reflexivity|]. eapply EApp; reflexivity.
-    + injection H as Hm _. subst m'.
-      exists SG. eexists. exists (m_imports m). split; [reflexivity|]. eapply EApp; reflexivity.
-    + injection H as Hm _. subst m'.
-      exists SM. eexists. exists (m_imports m). split; [reflexivity|]. eapply EApp; reflexivity.
-  - right. pose proof (wf_cnt _ _ _ (W s)) as Hc.
-    destruct s; cbn [Reindex.step] in H; rewrite push_import_eq in H.
-    + change (get_sp (with_sp m SF ?x ?i) SF) with x in H. cbv beta iota in H.
-      match type of H with (if ?c then _ else _) = _ => destruct c end; [|discriminate].
-      injection H as Hm _. subst m'. exists SF. eexists. eexists. split; [reflexivity|].
-      eapply EApp; [reflexivity|]. apply (origN_bump (m_f m)). exact Hc.
-    + cbv beta iota in H. injection H as Hm _. subst m'. exists SG. eexists. eexists. split; [reflexivity|].
-      eapply EApp; [reflexivity|]. apply (origN_bump (m_g m)). exact Hc.
-    + change (get_sp (with_sp m SM ?x ?i) SM) with x in H. cbv beta iota in H.
-      match type of H with (if ?c then _ else _) = _ => destruct c end; [|discriminate].
-      injection H as Hm _. subst m'. exists SM. eexists. eexists. split; [reflexivity|].
-      eapply EApp; [reflexivity|]. apply (origN_bump (m_m m)). exact Hc.
-  - right. cbn [Reindex.step] in H. destruct (delete_in m s id) as [m1|] eqn:E; [|discriminate].
-    injection H as Hm _. subst m'. destruct (delete_in_ok _ _ _ _ E) as [it [Hit ->]].
-    exists s. eexists. eexists. split; [reflexivity|]. eapply EDel; reflexivity.
-  - cbn [Reindex.step] in H. unfold nthN in H.
-    destruct (nth_error (s_items (m_f m)) (N.to_nat id)) as [it|] eqn:Eit; [|discriminate].
-    destruct (is_import it) eqn:Ei; [left; injection H as Hm _; congruence|]. right.
-    destruct (delete_in m SF id) as [m1|] eqn:E; [|discriminate].
-    destruct (delete_in_ok _ _ _ _ E) as [it0 [Hit0 Em1]].
-    rewrite push_import_eq in H. cbv beta iota in H. injection H as Hm _. subst m'.
-    exists SF. eexists. eexists. split.
-    + rewrite Em1. reflexivity.
-    + eapply (EL2I _ _ _ _ id fp); [reflexivity|reflexivity| |].
-      * cbn [s_items get_sp with_sp set_sp m_f]. unfold updN. rewrite upd_upd. reflexivity.
-      * cbn [get_sp with_sp set_sp m_f s_num s_added]. apply (origN_bump (m_f m)). exact (wf_cnt _ _ _ (W SF)).
-  - cbn [Reindex.step] in H.
-    destruct (nthN (m_imports m) k) as [im|]; [|discriminate].
-    destruct (negb (i_sp im =? 0)%N); [discriminate|].
-    unfold nthN in H.
-    destruct (nth_error (s_items (m_f m)) (N.to_nat k)) as [it|] eqn:Eit; [|discriminate].
-    destruct (is_local it) eqn:Ei; [left; injection H as Hm _; congruence|]. right.
-    destruct (delete_in m SF k) as [m1|] eqn:E; [|discriminate].
-    destruct (delete_in_ok _ _ _ _ E) as [it0 [Hit0 Em1]].
-    injection H as Hm _. subst m'.
-    exists SF. eexists. eexists. split.
-    + rewrite Em1. reflexivity.
-    + eapply (EI2L _ _ _ _ k fp); [reflexivity|reflexivity| |reflexivity].
-      cbn [s_items get_sp with_sp set_sp m_f]. unfold updN. rewrite upd_upd. reflexivity.
-  - right. cbn [Reindex.step] in H. injection H as Hm _. subst m'.
-    exists SG. eexists. exists (m_imports m). split; [reflexivity|]. eapply EApp; reflexivity.
-  - left. cbn [Reindex.step] in H. injection H as Hm _. congruence.
-  - left. cbn [Reindex.step] in H. injection H as Hm _. congruence.
-  - left. cbn [Reindex.step] in H. injection H as Hm _. congruence.
-Qed.
-
-Definition first_imports (x : space) : Prop :=
-  forall p it, p < origN x -> nth_error (s_items x) p = Some it -> is_import it = true.
-Definition noDL (x : space) : Prop :=
-  forall p it, p < origN x -> nth_error (s_items x) p = Some it -> is_local it = true -> it_del it = false.
-
-Lemma okD26_iff x m : okD26 x m = true <-> noDL (get_sp m x).
-Proof.
-  unfold okD26, noDL. split.
-  - intros H p it Hp Hn Hl. pose proof (negb_existsb_false _ _ H it (nth_In_firstn _ _ _ _ Hp Hn)) as H0.
-    cbv beta in H0. rewrite Hl in H0. exact H0.
-  - intros H. apply negb_true_iff. destruct (existsb _ _) eqn:E; [|reflexivity]. exfalso.
-    apply existsb_exists in E as [it [Hin Hb]]. apply andb_prop in Hb as [Hl Hd].
-    apply In_firstn_nth in Hin as [p [Hp Hn]]. rewrite (H p it Hp Hn Hl) in Hd. discriminate.
-Qed.
-Lemma first_imports_noDL x : first_imports x -> noDL x.
-Proof. intros H p it Hp Hn Hl. rewrite (import_not_local _ (H p it Hp Hn)) in Hl. discriminate. Qed.
-Lemma pristine_first_imports code imps x : wf_space code imps x -> s_recalc x = false -> first_imports x.
-Proof.
-  intros W Hr p it Hp Hn. destruct (wf_prist _ _ _ W Hr) as [Ha Hall]. apply (Hall p it Hn).
-  unfold origN in Hp. rewrite Ha in Hp. lia.
-Qed.
-
-Definition sp_eq_dec (a b : sp) : {a = b} + {a <> b}.
-Proof. decide equality. Defined.
-
-(* original imports stay imports under every edit except replace_import_in_module (on functions) *)
-Lemma step_first_imports m o m' r x : wf m -> mstep m o = Ok (m', r) ->
-  (x = SF -> is_i2l o = false) -> first_imports (get_sp m x) -> first_imports (get_sp m' x).
-Proof.
-  intros W H Hx F. destruct (step_effect _ _ _ _ W H) as [->|[s [x' [imps' [-> Eff]]]]]; [exact F|].
-  destruct (sp_eq_dec x s) as [->|Hne]; [|rewrite get_with_other by exact Hne; exact F].
-  rewrite get_with_same. pose proof (wf_orig _ _ _ (W s)) as Ho.
-  destruct Eff as [a Ei Eo|id Eop Ei Eo|id fp k Eop Es Ei Eo|k fp Eop Es Ei Eo]; intros p it Hp Hn; rewrite Eo in Hp; rewrite Ei in Hn.
-  - rewrite nth_error_app1 in Hn by lia. exact (F p it Hp Hn).
-  - destruct (nth_error_upd_del _ _ _ _ Hn) as [a [Ha [Eimp _]]].
-    pose proof (F p a Hp Ha) as Fa. unfold is_import, is_local in *. rewrite Eimp. exact Fa.
-  - destruct (Nat.eq_dec (N.to_nat id) p) as [<-|Hnp].
-    + rewrite nth_error_upd_same in Hn. destruct (nth_error _ _); [|discriminate]. cbn in Hn. inversion Hn. reflexivity.
-    + rewrite nth_error_upd_other in Hn by exact Hnp. exact (F p it Hp Hn).
-  - subst o. specialize (Hx Es). discriminate.
-Qed.
-
-(* no deleted local among the original imports of the function space: kept by every edit except Delete SF *)
-Lemma step_noDL m o m' r : wf m -> mstep m o = Ok (m', r) ->
-  is_del_f o = false -> noDL (m_f m) -> noDL (m_f m').
-Proof.
-  intros W H Hx F. destruct (step_effect _ _ _ _ W H) as [->|[s [x' [imps' [-> Eff]]]]]; [exact F|].
-  change (noDL (get_sp (with_sp m s x' imps') SF)). change (noDL (get_sp m SF)) in F.
-  destruct (sp_eq_dec SF s) as [<-|Hne]; [|rewrite get_with_other by exact Hne; exact F].
-  rewrite get_with_same. pose proof (wf_orig _ _ _ (W SF)) as Ho.
-  destruct Eff as [a Ei Eo|id Eop Ei Eo|id fp k Eop Es Ei Eo|k fp Eop Es Ei Eo]; intros p it Hp Hn; rewrite Eo in Hp; rewrite Ei in Hn.
-  - rewrite nth_error_app1 in Hn by lia. exact (F p it Hp Hn).
-  - subst o. discriminate.
-  - destruct (Nat.eq_dec (N.to_nat id) p) as [<-|Hnp].
-    + rewrite nth_error_upd_same in Hn. destruct (nth_error _ _); [|discriminate]. cbn in Hn. inversion Hn. discriminate.
-    + rewrite nth_error_upd_other in Hn by exact Hnp. exact (F p it Hp Hn).
-  - destruct (Nat.eq_dec (N.to_nat k) p) as [<-|Hnp].
-    + rewrite nth_error_upd_same in Hn. destruct (nth_error _ _); [|discriminate]. cbn in Hn. inversion Hn. reflexivity.
-    + rewrite nth_error_upd_other in Hn by exact Hnp. exact (F p it Hp Hn).
-Qed.
-
-(* globals and memories: an original import is never turned into a local, so D26 cannot arise there *)
-Lemma run_pref_first_imports x : x <> SF -> forall h m rets m' rets' b,
-  wf m -> run_pref m h rets = (m', rets', b) -> first_imports (get_sp m x) -> first_imports (get_sp m' x).
-Proof.
-  intros Hx. induction h as [|o h IH]; intros m rets m' rets' b W H F; cbn [run_pref] in H.
-  - inversion H; subst. exact F.
-  - destruct (mstep m o) as [[m1 r]|w] eqn:E.
-    + refine (IH m1 _ m' rets' b (step_wf _ _ _ _ W E) H _).
-      apply (step_first_imports _ _ _ _ x W E); [intros; contradiction|exact F].
-    + inversion H; subst. exact F.
-Qed.
-
-(* functions: outside "a Delete SF after an ImportToLocal" no deleted local is left among the original imports *)
-Lemma run_pref_noDL : forall h m rets m' rets' b,
-  wf m -> run_pref m h rets = (m', rets', b) -> after is_i2l is_del_f h = false ->
-  noDL (m_f m) -> (first_imports (m_f m) \/ existsb is_del_f h = false) -> noDL (m_f m').
-Proof.
-  induction h as [|o h IH]; intros m rets m' rets' b W H Ha F D; cbn [run_pref] in H.
-  - inversion H; subst. exact F.
-  - destruct (mstep m o) as [[m1 r]|w] eqn:E; [|inversion H; subst; exact F].
-    cbn [after] in Ha. apply orb_false_iff in Ha as [Ha1 Ha2].
-    pose proof (step_wf _ _ _ _ W E) as W1.
-    destruct (is_i2l o) eqn:Ei.
-    + cbn [andb] in Ha1.
-      assert (Hd : is_del_f o = false) by (destruct o; try discriminate; reflexivity).
-      exact (IH m1 _ m' rets' b W1 H Ha2 (step_noDL _ _ _ _ W E Hd F) (or_intror Ha1)).
-    + destruct D as [D|D].
-      * assert (F1 : first_imports (m_f m1)) by (apply (step_first_imports _ _ _ _ SF W E); [intros _; exact Ei|exact D]).
-        exact (IH m1 _ m' rets' b W1 H Ha2 (first_imports_noDL _ F1) (or_introl F1)).
-      * cbn [existsb] in D. apply orb_false_iff in D as [D1 D2].
-        exact (IH m1 _ m' rets' b W1 H Ha2 (step_noDL _ _ _ _ W E D1 F) (or_intror D2)).
-Qed.
-
-Theorem not_known_D26 (c : rcase) : known_D26 c = false -> forall x, okD26 x (final_model c) = true.
-Proof.
-  intros H x. apply okD26_iff. unfold final_model.
-  destruct (run_pref (mk_base c) (h_ops c) []) as [[m rets] b] eqn:E. cbn [fst].
-  pose proof (wf_mk_base c) as Wb.
-  assert (Fb : forall y, first_imports (get_sp (mk_base c) y))
-    by (intros y; apply (pristine_first_imports _ _ _ (Wb y)); destruct y; reflexivity).
-  destruct (sp_eq_dec x SF) as [->|Hne].
-  - exact (run_pref_noDL _ _ _ _ _ _ Wb E H (first_imports_noDL _ (Fb SF)) (or_introl (Fb SF))).
-  - apply first_imports_noDL. exact (run_pref_first_imports x Hne _ _ _ _ _ _ Wb E (Fb x)).
-Qed.
-
-(* in a reachable state the global and the memory space are never in D26 *)
-Theorem okD26_globals_memories (c : rcase) : okD26 SG (final_model c) = true /\ okD26 SM (final_model c) = true.
-Proof.
-  unfold final_model. destruct (run_pref (mk_base c) (h_ops c) []) as [[m rets] b] eqn:E. cbn [fst].
-  pose proof (wf_mk_base c) as Wb.
-  assert (Fb : forall y, first_imports (get_sp (mk_base c) y))
-    by (intros y; apply (pristine_first_imports _ _ _ (Wb y)); destruct y; reflexivity).
-  split; apply okD26_iff; apply first_imports_noDL.
-  - refine (run_pref_first_imports SG _ _ _ _ _ _ _ Wb E (Fb SG)). discriminate.
-  - refine (run_pref_first_imports SM _ _ _ _ _ _ _ Wb E (Fb SM)). discriminate.
-Qed.
-
-(* ------------------------------------------------------------------------------------------ *)
-(* C09: outside the three classes the emitted index space IS the reorganised vector, position by position, and
-   that vector holds exactly the live items, each once *)
-
-Theorem wf_space_is_index_space m x : wf m ->
-  okD02 x m = true -> okD06 x m = true -> okD26 x m = true ->
+Theorem wf_space_is_index_space m x : wf m -> okD02 x m = true ->
   forall l mp, index_space (get_sp m x) = Ok (l, mp) ->
   space_of_model m l x = map it_fp l /\
   NoDup (map it_id l) /\
   (forall it, In it l <-> In it (s_items (get_sp m x)) /\ it_del it = false) /\
   (forall p it, nth_error l p = Some it -> lookup mp (it_id it) = Some (N.of_nat p)).
 Proof.
-  intros W H2 H6 H26 l mp H.
+  intros W H2 l mp H.
   rewrite (ok02_unfold _ _ _ _ H) in H2.
   destruct (index_space_wf _ _ _ (W x) _ _ H) as [El Emp]. rewrite El in H2.
   pose proof (spec_ids_nodup (origN (get_sp m x)) _ (wf_ids_nodup _ _ _ (W x))) as Hnd. rewrite <- El in Hnd.
   split; [|split; [exact Hnd|split]].
   - unfold space_of_model, model_imports. rewrite model_imports_kind.
-    rewrite (import_order_agrees _ _ _ (W x) H6 H26 H2). rewrite El at 1.
-    rewrite (emitted_locals_spec _ _ (noD06_of_ok _ H6) (noD26_of_ok _ H26)).
+    rewrite (import_order_agrees _ _ _ (W x) H2). rewrite El at 1.
+    rewrite emitted_locals_spec.
     rewrite <- map_app, <- spec_split, <- El. reflexivity.
   - intros it. split.
-    + intros Hin. split; [rewrite El in Hin; exact (spec_incl _ _ Hin)|exact (wf_no_deleted_left m x W H6 H26 l mp H it Hin)].
+    + intros Hin. split; [rewrite El in Hin; exact (spec_incl _ _ Hin)|exact (wf_no_deleted_left m x W l mp H it Hin)].
     + intros [Hin Hd]. rewrite El. exact (spec_keeps_live _ _ it Hin Hd).
   - intros p it Hp. rewrite Emp. exact (mapping_pos l p it Hnd Hp).
+Qed.
+
+(* without any premise: whatever the order of the import section, the recomputed vector holds exactly the live
+   items, each once, and the id map sends every live item to its position and no deleted id anywhere *)
+Theorem wf_index_space_exact m x : wf m ->
+  forall l mp, index_space (get_sp m x) = Ok (l, mp) ->
+  NoDup (map it_id l) /\
+  (forall it, In it l <-> In it (s_items (get_sp m x)) /\ it_del it = false) /\
+  (forall p it, nth_error l p = Some it -> lookup mp (it_id it) = Some (N.of_nat p)) /\
+  emitted_locals l true = map it_fp (filter is_local l).
+Proof.
+  intros W l mp H.
+  destruct (index_space_wf _ _ _ (W x) _ _ H) as [El Emp].
+  pose proof (spec_ids_nodup (origN (get_sp m x)) _ (wf_ids_nodup _ _ _ (W x))) as Hnd. rewrite <- El in Hnd.
+  split; [exact Hnd|split; [|split]].
+  - intros it. split.
+    + intros Hin. split; [rewrite El in Hin; exact (spec_incl _ _ Hin)|exact (wf_no_deleted_left m x W l mp H it Hin)].
+    + intros [Hin Hd]. rewrite El. exact (spec_keeps_live _ _ it Hin Hd).
+  - intros p it Hp. rewrite Emp. exact (mapping_pos l p it Hnd Hp).
+  - unfold emitted_locals. f_equal. apply filter_ext_in. intros i Hi.
+    rewrite (wf_no_deleted_left m x W l mp H i Hi). cbn. apply andb_true_r.
 Qed.
 
 (* C11 / C10: the in-place conversions.  Right after convert_local_fn_to_import the id of the converted function
@@ -1322,31 +1122,32 @@ Qed.
 
 Theorem l2i_binding m id fp m' r it : wf m -> mstep m (LocalToImport id fp) = Ok (m', r) ->
   nthN (s_items (m_f m)) id = Some it -> is_local it = true ->
-  okD02 SF m' = true -> okD06 SF m' = true -> okD26 SF m' = true ->
+  okD02 SF m' = true ->
   forall l mp, index_space (m_f m') = Ok (l, mp) ->
   exists q, lookup mp id = Some q /\ nthN (space_of_model m' l SF) q = Some fp.
 Proof.
-  intros W H Hit Hl H2 H6 H26 l mp Hs.
+  intros W H Hit Hl H2 l mp Hs.
   destruct (l2i_item _ _ _ _ _ _ H Hit Hl) as [Hnew _].
-  exact (wf_binding m' SF (step_wf _ _ _ _ W H) H2 H6 H26 l mp Hs _ (nth_error_In _ _ Hnew) eq_refl).
+  exact (wf_binding m' SF (step_wf _ _ _ _ W H) H2 l mp Hs _ (nth_error_In _ _ Hnew) eq_refl).
 Qed.
 Theorem i2l_binding m k fp m' r it : wf m -> mstep m (ImportToLocal k fp) = Ok (m', r) ->
   nthN (s_items (m_f m)) k = Some it -> is_import it = true ->
-  okD02 SF m' = true -> okD06 SF m' = true -> okD26 SF m' = true ->
+  okD02 SF m' = true ->
   forall l mp, index_space (m_f m') = Ok (l, mp) ->
   exists q, lookup mp k = Some q /\ nthN (space_of_model m' l SF) q = Some fp.
 Proof.
-  intros W H Hit Hi H2 H6 H26 l mp Hs.
+  intros W H Hit Hi H2 l mp Hs.
   pose proof (i2l_item _ _ _ _ _ _ H Hit Hi) as Hnew.
-  exact (wf_binding m' SF (step_wf _ _ _ _ W H) H2 H6 H26 l mp Hs _ (nth_error_In _ _ Hnew) eq_refl).
+  exact (wf_binding m' SF (step_wf _ _ _ _ W H) H2 l mp Hs _ (nth_error_In _ _ Hnew) eq_refl).
 Qed.
 
 (* ------------------------------------------------------------------------------------------ *)
-(* everything in the checker's vocabulary: for every case (any base, any history), outside the classes D02, D06 and
-   D26 as CheckReidx.v decides them, every live item's id designates - by Wasm's rule applied to what [encode]
-   returns - the entity with that item's fingerprint *)
+(* everything in the checker's vocabulary: for every case (any base, any history), outside the class D02 as
+   CheckReidx.v decides it, every live item's id designates - by Wasm's rule applied to what [encode] returns - the
+   entity with that item's fingerprint; deleted ids are unmapped and nothing deleted is left (these two hold
+   unconditionally) *)
 Theorem case_binding_outside_known_classes (c : rcase) e :
-  known_D02 c = false -> known_D06 c = false -> known_D26 c = false ->
+  known_D02 c = false ->
   encode (final_model c) (dead_exports (h_ops c)) (sites c) = Ok e ->
   forall x l mp, index_space (get_sp (final_model c) x) = Ok (l, mp) ->
   (forall it, In it (s_items (get_sp (final_model c) x)) -> it_del it = false ->
@@ -1354,23 +1155,23 @@ Theorem case_binding_outside_known_classes (c : rcase) e :
   (forall it, In it (s_items (get_sp (final_model c) x)) -> it_del it = true -> lookup mp (it_id it) = None) /\
   (forall it, In it l -> it_del it = false).
 Proof.
-  intros K2 K6 K26 He x l mp H.
-  pose proof (not_known_D02 c K2 x) as H2. pose proof (not_known_D06 c K6 x) as H6. pose proof (not_known_D26 c K26 x) as H26.
+  intros K2 He x l mp H.
+  pose proof (not_known_D02 c K2 x) as H2.
   pose proof (wf_final_model c) as W.
   split; [|split].
-  - exact (wf_encode_designates _ _ _ e W He x H2 H6 H26 l mp H).
-  - exact (wf_deleted_item_unmapped _ x W H6 H26 l mp H).
-  - exact (wf_no_deleted_left _ x W H6 H26 l mp H).
+  - exact (wf_encode_designates _ _ _ e W He x H2 l mp H).
+  - exact (wf_deleted_item_unmapped _ x W l mp H).
+  - exact (wf_no_deleted_left _ x W l mp H).
 Qed.
 
 Local Open Scope N_scope.
 (* non-vacuity: a history with a deletion, a conversion in each direction, an added import and added locals lies
-   outside the three classes, encodes, and the theorem's conclusion is visible on it (id 2 is the deleted one) *)
+   outside D02, encodes, and the theorem's conclusion is visible on it (id 2 is the deleted one) *)
 Example reachable_binding_nonvacuous :
   let c := mkRC [(0, 1); (1, 2); (0, 3)] [11; 12; 99] [5] [7] 0
              [Delete SF 2; LocalToImport 3 41; AddImport SF 21; AddLocal SG 6; AddImport SM 8; ImportToLocal 0 51]
              [] [] false None false false in
-  known_D02 c = false /\ known_D06 c = false /\ known_D26 c = false /\
+  known_D02 c = false /\
   map it_fp (s_items (m_f (final_model c))) = [51; 3; 11; 41; 99; 21] /\
   (match encode (final_model c) [] [] with
    | Ok e => map (fun id => match lookup (snd (ispace_m (final_model c) SF)) id with
@@ -1383,7 +1184,7 @@ Example reachable_binding_needs_okD02 :
   let c := mkRC [(0, 1); (1, 2); (0, 3)] [11; 12; 99] [5] [7] 0
              [AddImport SF 21; Delete SF 2; LocalToImport 3 41; AddLocal SG 6; AddImport SM 8; ImportToLocal 0 51]
              [] [] false None false false in
-  okD02 SF (final_model c) = false /\ okD06 SF (final_model c) = true /\ okD26 SF (final_model c) = true /\
+  okD02 SF (final_model c) = false /\
   map it_fp (s_items (m_f (final_model c))) = [51; 3; 11; 41; 99; 21] /\
   (match encode (final_model c) [] [] with
    | Ok e => map (fun id => match lookup (snd (ispace_m (final_model c) SF)) id with
@@ -1397,8 +1198,6 @@ Print Assumptions run_pref_wf.
 Print Assumptions wf_mk_base.
 Print Assumptions wf_final_model.
 Print Assumptions known_D02_link.
-Print Assumptions known_D06_link.
-Print Assumptions not_known_D26.
 Print Assumptions index_space_wf.
 Print Assumptions wf_index_space_total.
 Print Assumptions import_order_agrees.
@@ -1413,6 +1212,7 @@ Print Assumptions wf_encode_designates.
 Print Assumptions encode_designates.
 Print Assumptions case_encode_designates.
 Print Assumptions wf_space_is_index_space.
+Print Assumptions wf_index_space_exact.
 Print Assumptions l2i_binding.
 Print Assumptions i2l_binding.
 Print Assumptions case_binding_outside_known_classes.
